@@ -81,3 +81,79 @@ def IsShownKey {P : Type} (f : Frame P) : Prop :=
   f.showExisting = none ∧ f.frameType = .key ∧ f.showFrame = true
 
 end Dpb
+
+/-! ## Additions for C01 / C08 (purely additive; nothing above is changed)
+
+  * `recons`   : the pictures reconstructed while decoding, in coding order
+  * `EncPic`, `encStep`, `runEnc` : the ENCODER-side frame-level machine, written against the encoder's own bookkeeping
+    (`frm_hdr.frame_type/show_frame/showable_frame/show_existing_frame/show_existing_loc`,
+    `av1_ref_signal.refresh_frame_mask`, `av1_ref_signal.ref_dpb_index[0..6]`: EbPictureDecisionProcess.c
+    `av1_generate_rps_info` l.1270-2150, `set_key_frame_rps` l.1203-1213; written to the stream by
+    `write_uncompressed_header`, EbEntropyCoding.c l.3527/3567/3727/3757-3760)
+  * `fgSeedNext`, `fgSeed` : the film-grain random-seed update rule of the encoder
+-/
+namespace Dpb
+
+/-- The pictures reconstructed by `runDec` (one per coded frame header, none for `show_existing_frame` headers),
+    in coding order. -/
+def recons {P S : Type} (R : P → List S → S) (d : State S) : List (Frame P) → List S
+  | [] => []
+  | f :: fs =>
+    match f.showExisting with
+    | some _ => recons R (decStep R d f).1 fs
+    | none => R f.payload (refsOf d f) :: recons R (decStep R d f).1 fs
+
+/-- What the encoder decided for one picture (one `PictureParentControlSet`), in the encoder's own terms. -/
+structure EncPic (P : Type) where
+  frameType       : FrameType          -- frm_hdr.frame_type
+  showFrame       : Bool               -- frm_hdr.show_frame
+  showableFrame   : Bool               -- frm_hdr.showable_frame
+  showExistingLoc : Option (Fin 8)     -- frm_hdr.show_existing_frame = 1 with frm_hdr.show_existing_loc
+  refreshFrameMask : Nat               -- av1_ref_signal.refresh_frame_mask (0xFF for key frames: set_key_frame_rps l.1207)
+  refDpbIndex     : List (Fin 8)       -- av1_ref_signal.ref_dpb_index[LAST..ALT]
+  payload         : P
+
+/-- Bit `j` of the mask the way the C code tests it: `(refresh_frame_mask >> j) & 1`. -/
+def maskBit (m j : Nat) : Bool := (m >>> j) % 2 = 1
+
+/-- Pictures the encoder predicts from: I_SLICE pictures (KEY / INTRA_ONLY) read nothing; the others read the pictures
+    their seven `ref_dpb_index` entries designate. -/
+def encRefs {P S : Type} (d : State S) (p : EncPic P) : List S :=
+  if p.frameType = .key ∨ p.frameType = .intraOnly then [] else p.refDpbIndex.map fun i => (d i).pic
+
+/-- One step of the encoder-side machine: reconstruct the picture from the encoder's references, store it in every
+    slot whose mask bit is set, emit it if it is displayed.  A show-existing picture re-emits the stored picture (and,
+    for a key frame, reloads every slot with it — the encoder never produces that case but the rule is the spec's). -/
+def encStep {P S : Type} (R : P → List S → S) (d : State S) (p : EncPic P) : State S × Option S :=
+  match p.showExistingLoc with
+  | some i =>
+    if (d i).frameType = .key then (fun _ => d i, some (d i).pic) else (d, some (d i).pic)
+  | none =>
+    let s : Slot S := { pic := R p.payload (encRefs d p), frameType := p.frameType, showable := p.showableFrame }
+    (fun j => if maskBit (p.refreshFrameMask % 256) j.val then s else d j, if p.showFrame then some s.pic else none)
+
+def runEnc {P S : Type} (R : P → List S → S) (d : State S) : List (EncPic P) → State S × List (Option S)
+  | [] => (d, [])
+  | p :: ps =>
+    let r := encStep R d p
+    let rest := runEnc R r.1 ps
+    (rest.1, r.2 :: rest.2)
+
+/-- The frame header an ideal writer + parser pair turns an encoder picture into. -/
+def EncPic.toFrame {P : Type} (p : EncPic P) : Frame P :=
+  { frameType := p.frameType, showFrame := p.showFrame, showableFrame := p.showableFrame, showExisting := p.showExistingLoc,
+    refreshFlags := p.refreshFrameMask, refIdx := p.refDpbIndex, payload := p.payload }
+
+/-- Film-grain random seed update (EbPictureDecisionProcess.c l.5088-5092): `uint16_t` arithmetic,
+    `seed += 3381; if (!seed) seed += 7391;`. -/
+def fgSeedNext (s : BitVec 16) : BitVec 16 :=
+  let t := s + 3381#16
+  if t = 0#16 then t + 7391#16 else t
+
+/-- The seed given to the `n`-th picture that passes through the assignment (initial value 7391:
+    EbSequenceControlSet.c l.188; each picture takes the current value, then the value is advanced). -/
+def fgSeed : Nat → BitVec 16
+  | 0 => 7391#16
+  | n + 1 => fgSeedNext (fgSeed n)
+
+end Dpb
